@@ -447,10 +447,19 @@ package kafka
 
 //@ property C18
 
+// Whether the authentication bytes travel raw or inside SaslAuthenticate requests depends on the version of the
+// SaslHandshake that was sent: both functions must take that version from the same negotiation (the handshake key, v0..v1),
+// otherwise a broker that speaks handshake v1 but an older SaslAuthenticate would receive raw bytes it reads as a request.
+//@ func (*Conn).negotiateVersion
+//@   trusted picks the highest version of the key supported by both sides (apiVersionMap.negotiate, proved under C12)
 //@ func (*Conn).saslHandshake
-//@   trusted performs the SaslHandshake exchange on the connection (its framing belongs to C04/C11)
+//@   option noframe
+//@   modifies heap
+//@   callsite (*Conn).negotiateVersion requires $1 == saslHandshake && len($2) == 2 && $2[0] == v0 && $2[1] == v1
 //@ func (*Conn).saslAuthenticate
-//@   trusted performs one SaslAuthenticate exchange (raw or framed, by handshake version)
+//@   option noframe
+//@   modifies heap
+//@   callsite (*Conn).negotiateVersion requires $1 == saslHandshake && len($2) == 2 && $2[0] == v0 && $2[1] == v1
 //@ func splitHostPortNumber
 //@   trusted address parsing
 
@@ -601,7 +610,7 @@ package kafka
 //@   ensures result1 == nil ==> result0 == $1 - 4
 //@   ensures !spec.iskafka(result1)
 //@ func readNewBytes
-//@   requires 0 <= sz && sz <= 0xffffffffffff
+//@   requires n > 0 ==> 0 <= sz && sz <= 0xffffffffffff
 //@   option allocbound sz
 //@   modifies r.$rpos
 //@   ensures racct(r, $1, result1)
